@@ -314,12 +314,26 @@ class Interp:
         self.cross_check = CROSS_CHECK_ALL
 
     # ---- solver helpers
+    def _retry(self, assertions):
+        """a query that hit the per-query time limit (a loaded machine) is decided again in a fresh solver with a 10-minute limit;
+        only if that is undecided too does the obligation become inconclusive"""
+        s2 = z3.Solver()
+        s2.set("timeout", 600000)
+        s2.set("random_seed", 7)
+        for a in assertions:
+            s2.add(a)
+        r = s2.check()
+        self.retried = getattr(self, "retried", 0) + 1
+        return r, (s2.model() if r == z3.sat else None)
+
     def sat(self, pc):
         self.queries += 1
         self.solver.push()
         for c in pc:
             self.solver.add(c)
         r = self.solver.check()
+        if r == z3.unknown:
+            r, _ = self._retry(list(self.solver.assertions()))
         self.solver.pop()
         if r == z3.unknown:
             raise MirError("solver returned unknown")
@@ -333,6 +347,8 @@ class Interp:
         self.solver.add(z3.Not(formula))
         r = self.solver.check()
         model = self.solver.model() if r == z3.sat else None
+        if r == z3.unknown:
+            r, model = self._retry(list(self.solver.assertions()))
         smt2 = self.solver.to_smt2() if (getattr(self, "cross_check", False) and getattr(self, "cross_checked", 0) < CROSS_CHECK_CAP) else None
         self.solver.pop()
         if r == z3.unknown:
